@@ -679,6 +679,11 @@ hwloc_alloc_membind(hwloc_topology_t topology, size_t len, hwloc_const_bitmap_t 
 {
   void *ret;
 
+  if ((flags & ~HWLOC_MEMBIND_ALLFLAGS) || hwloc__check_membind_policy(policy) < 0) {
+    errno = EINVAL;
+    return NULL;
+  }
+
   if (flags & HWLOC_MEMBIND_BYNODESET) {
     ret = hwloc_alloc_membind_by_nodeset(topology, len, set, policy, flags);
   } else {
